@@ -154,8 +154,8 @@ class SeenSet:
         if self.all_seen:
             return True
         if not assignment:
-            self.all_seen = True
-            self.seen.append(assignment)
+            # Asking is not recording: nothing has been evaluated under the empty assignment yet, so it is only
+            # covered once an empty assignment has actually been added.
             return False
         for constraint in self.seen:
             if all(assignment[k] == v if k in assignment else False for k, v in constraint.items()):
